@@ -55,7 +55,7 @@ def build_snapshot(shape, rng):
     if a in ('str', 'all'):
         attrs['s'] = 'val' + t
     if a in ('bool_int_float', 'all'):
-        attrs.update({'b': True, 'i': 7, 'f': 2.5})
+        attrs.update({'b': True, 'b0': False, 'i': 7, 'i1': 1, 'i0': 0, 'f': 2.5, 'f1': 1.0, 'f0': 0.0})
     if a in ('sequence', 'all'):
         attrs['seq'] = ['x', 'y']
         attrs['by'] = b'bytes'
